@@ -891,3 +891,157 @@ func (g *Grammar) RuleOfContext(typeName string) (string, string, bool) {
 	}
 	return try(base)
 }
+
+// ----- profiles: which symbols co-occur among the direct children of a rule ---------------------
+// A profile maps each child symbol to its count (capped at 2) in one derivation of the rule body, plus the total
+// number of children (capped at 6). The set of profiles is finite and small for the shipped grammars.
+
+type profile struct {
+	counts map[string]int
+	total  int
+}
+
+func (p profile) key() string {
+	ks := make([]string, 0, len(p.counts))
+	for k, v := range p.counts {
+		ks = append(ks, fmt.Sprintf("%s=%d", k, v))
+	}
+	sort.Strings(ks)
+	return fmt.Sprintf("%d|%s", p.total, strings.Join(ks, ","))
+}
+
+const totalCap = 6
+
+func addProfiles(a, b profile) profile {
+	out := profile{counts: map[string]int{}, total: a.total + b.total}
+	if out.total > totalCap {
+		out.total = totalCap
+	}
+	for k, v := range a.counts {
+		out.counts[k] = v
+	}
+	for k, v := range b.counts {
+		n := out.counts[k] + v
+		if n > many {
+			n = many
+		}
+		out.counts[k] = n
+	}
+	return out
+}
+
+func dedupProfiles(ps []profile) []profile {
+	seen := map[string]bool{}
+	var out []profile
+	for _, p := range ps {
+		k := p.key()
+		if !seen[k] {
+			seen[k] = true
+			out = append(out, p)
+		}
+	}
+	return out
+}
+
+func (g *Grammar) profilesNode(n *gNode) []profile {
+	var base []profile
+	switch n.Kind {
+	case gRule, gTok:
+		base = []profile{{counts: map[string]int{n.Name: 1}, total: 1}}
+	case gSeq:
+		base = []profile{{counts: map[string]int{}}}
+		for _, k := range n.Kids {
+			kp := g.profilesNode(k)
+			var next []profile
+			for _, a := range base {
+				for _, b := range kp {
+					next = append(next, addProfiles(a, b))
+				}
+			}
+			base = dedupProfiles(next)
+			if len(base) > 4000 {
+				base = base[:4000]
+			}
+		}
+	case gAlt:
+		for _, k := range n.Kids {
+			base = append(base, g.profilesNode(k)...)
+		}
+		base = dedupProfiles(base)
+	default:
+		base = []profile{{counts: map[string]int{}}}
+	}
+	switch n.Rep {
+	case '?':
+		base = dedupProfiles(append([]profile{{counts: map[string]int{}}}, base...))
+	case '*', '+':
+		all := []profile{}
+		if n.Rep == '*' {
+			all = append(all, profile{counts: map[string]int{}})
+		}
+		cur := base
+		for i := 0; i < 3; i++ {
+			all = append(all, cur...)
+			var next []profile
+			for _, a := range cur {
+				for _, b := range base {
+					next = append(next, addProfiles(a, b))
+				}
+			}
+			cur = dedupProfiles(next)
+			if len(cur) > 2000 {
+				cur = cur[:2000]
+			}
+		}
+		base = dedupProfiles(all)
+	}
+	return base
+}
+
+var profileCache = map[string][]profile{}
+
+// Profiles of a rule (restricted to a labelled alternative when label != "").
+func (g *Grammar) Profiles(rule, label string) []profile {
+	key := g.Name + "|" + rule + "|" + label
+	if p, ok := profileCache[key]; ok {
+		return p
+	}
+	r := g.Rules[rule]
+	var out []profile
+	if r != nil {
+		for _, a := range r.Body.Kids {
+			if label != "" && a.Label != label {
+				continue
+			}
+			out = append(out, g.profilesNode(a)...)
+		}
+		out = dedupProfiles(out)
+	}
+	profileCache[key] = out
+	return out
+}
+
+// Sequences: complete child sequences of length ≤ k (longer ones are cut and marked open).
+func (g *Grammar) Sequences(rule, label string, k int) []pfx {
+	r := g.Rules[rule]
+	var out []pfx
+	if r == nil {
+		return out
+	}
+	for _, a := range r.Body.Kids {
+		if label != "" && a.Label != label {
+			continue
+		}
+		out = append(out, g.pfxNode(a, k)...)
+	}
+	return dedup(out)
+}
+
+// LiteralText: the source text of a token symbol if it is a fixed literal.
+func (g *Grammar) LiteralText(sym string) (string, bool) {
+	if strings.HasPrefix(sym, "'") {
+		return strings.Trim(sym, "'"), true
+	}
+	t, ok := g.TokLit[sym]
+	return t, ok
+}
